@@ -171,19 +171,49 @@ def run(ctx):
                 ok = any(a[0] == "field" and a[2] == "stdin_data" for a in M.alts(src))
         delivers[ty] = ok
         ctx.ob("R16.2", "%s::setup_communicate.delivers-stdin_data" % ty.split("::")[-1], ok, sc.loc(0), "the stdin_data taken from the builder must be what the communicator receives as input")
+    # a terminator is safe if everything in it that can create a process is (a) dominated by its own
+    # check_no_stdin_data, (b) a call to a safe terminator of the same builder type (which refuses first), or
+    # (c) a call to setup_communicate, which delivers the data.  Least fixpoint over the terminators.
+    safe = set()
+    info = {}
+    changed = True
+    while changed:
+        changed = False
+        for ty, names in terms.items():
+            for n in names:
+                path = "%s::%s" % (ty, n)
+                f = prog.fn(path)
+                if f is None or path in safe:
+                    continue
+                creators = [(bb, t) for bb, t in f.calls() if M.callee_names(t["f"]) & can_create]
+                chk = [bb for bb, t in f.calls() if M.callee_str(t["f"]) == ty + "::check_no_stdin_data"]
+                ok = bool(creators)
+                why = []
+                for bb, t in creators:
+                    cal = M.callee_str(t["f"])
+                    if dominated_by_blocks(f, bb, chk):
+                        why.append("checked")
+                    elif cal in safe and cal.startswith(ty + "::"):
+                        why.append("via " + cal.split("::")[-1])
+                    elif cal == ty + "::setup_communicate" and delivers.get(ty, False):
+                        why.append("delivered")
+                    else:
+                        ok = False
+                        why.append("UNGUARDED " + cal.split("::")[-1])
+                info[path] = why
+                if ok:
+                    safe.add(path)
+                    changed = True
     for ty, names in terms.items():
         for n in names:
-            f = prog.fn("%s::%s" % (ty, n))
+            path = "%s::%s" % (ty, n)
+            f = prog.fn(path)
             if f is None:
-                ctx.missing("R16.2", "%s::%s" % (ty, n))
+                ctx.missing("R16.2", path)
                 continue
-            creators = [(bb, t) for bb, t in f.calls() if M.callee_names(t["f"]) & can_create]
-            chk = [bb for bb, t in f.calls() if M.callee_str(t["f"]) == ty + "::check_no_stdin_data"]
-            via_setup = all(M.callee_str(t["f"]) == ty + "::setup_communicate" for bb, t in creators) and delivers.get(ty, False) and bool(creators)
-            guarded = bool(creators) and all(dominated_by_blocks(f, bb, chk) for bb, t in creators)
-            ctx.ob("R16.2", "%s::%s" % (ty.split("::")[-1], n), guarded or via_setup, f.loc(0),
-                   "%s::%s must refuse pending input data before creating any process (check_no_stdin_data dominating %s) or deliver it through setup_communicate; guarded=%s delivered=%s"
-                   % (ty.split("::")[-1], n, [M.callee_str(t["f"]).split("::")[-1] for _, t in creators], guarded, via_setup))
+            ctx.ob("R16.2", "%s::%s" % (ty.split("::")[-1], n), path in safe, f.loc(0),
+                   "%s::%s must refuse pending input data before any process is created (its own check_no_stdin_data, or a checked terminator of the same builder) "
+                   "or deliver it through setup_communicate: %s" % (ty.split("::")[-1], n, info.get(path)))
     for ty in (EXEC, PIPE):
         ck = prog.fn(ty + "::check_no_stdin_data")
         if ck is None:
